@@ -299,6 +299,16 @@ for e in ('p_int', 'p_cstr', 'p_ptr', 'p_nullptr'):
 for e, sz in (('p_struct1', 1), ('p_struct4', 4), ('p_struct9', 9), ('p_struct17', 17)):
     ob(name='print.hexdump_%d_bytes' % sz, kind='FC+', props=['C18'], unit='print', harness='h_print.c', entry=e, unwind=26,
        bound='object size fixed by the type (sizeof = %d): the byte loop has a concrete bound; all byte values and every prior stream state symbolic' % sz)
+# structural printing: pairs, tuples, collections element-wise, user-provided printer<T>
+UNITS['print2'] = {
+    'opaque': [r'7printerIN14vp_trompeloeil5vp_UPEvE5print'], 'dyn_types': [],
+    'roots': {'PRINT_PAIR': '5printISt4pairIiPKcEEEvRSoRKT_', 'PRINT_TUPLE': '5printISt5tupleIJiPiPKcEEEEvRSoRKT_', 'PRINT_ARR': '5printIA3_iEEvRSoRKT_', 'PRINT_SARR': '5printISt5arrayIPKcLm2EEEEvRSoRKT_',
+              'PRINT_UP': '5printIN14vp_trompeloeil5vp_UPEEEvRSoRKT_', 'PRINT_NESTED': '5printISt4pairIN14vp_trompeloeil5vp_UPEiEEEvRSoRKT_'},
+    'stub_aliases': {'USER_PRINTER': r'^f_.*7printerIN14vp_trompeloeil5vp_UPEvE5print'},
+}
+for e in ('q_pair', 'q_tuple', 'q_collections', 'q_user_printer'):
+    ob(name='print.structural.%s' % e[2:], kind='FC+', props=['C18'], unit='print2', harness='h_print2.c', entry=e, unwind=26,
+       bound='none for the values: every null / non-null combination of the pointer members, every prior stream state; element counts fixed by the types (pair, 3-tuple, int[3], std::array<char const*,2>)')
 LEVELS['C18'] = 'proof'
 
 # ----------------------------------------------------------------------------------------------
